@@ -97,3 +97,200 @@ Proof.
     try rewrite cnt_repeat_none by reflexivity; try reflexivity; try discriminate.
   intros p H. rewrite hget_repeat in H. discriminate.
 Qed.
+
+Ltac lock_unf := unfold openForReading, openForWriting, openOrCreateForReading, startAppending, closeForWriting,
+  switchWritingToReading, closeForReading, abortWriting, freeEntry, freeEntryByKey, closeForReadingAndFreeIdle,
+  lockShared, unlockShared, lockExclusive, unlockExclusive, switchExclusiveToShared, lockStartAppending, stopAppending,
+  unlockSharedAndSwitchToExclusive, set_lk, set_wtbf, set_data, rewind, e_complete, e_writing in *.
+
+Lemma no_writer_holder : forall hs q, cnt isW hs = 0 -> isW (hget hs q) = true -> False.
+Proof. intros hs q H0 Hq. pose proof (cnt_pos_of_holder isW hs q eq_refl Hq). lia. Qed.
+
+Ltac cbnE := cbn [fst snd pe ph lk rd wr ap used wtbf halted ever elen] in *.
+
+Ltac fin_set :=
+  match goal with
+  | Hp : ?p < lenN ?hs, Hh : hget ?hs ?p = ?h0 |- pinv (mkPop _ (hset ?hs ?p ?h)) =>
+      pose proof (cnt_hset isR hs p h Hp) as CR; pose proof (cnt_hset isW hs p h Hp) as CW;
+      pose proof (cnt_hset isA hs p h Hp) as CA; rewrite Hh in CR, CW, CA; cbn [isR isW isA] in CR, CW, CA;
+      constructor; cbnE;
+      [ lia | lia | lia | try (intros; congruence); try (intros; reflexivity) | try (intros; lia); try (intros; congruence)
+      | try (intros; congruence); try (intros; reflexivity); try tauto
+      | let q := fresh "q" in let Hq := fresh "Hq" in intros q Hq;
+        destruct (N.eq_dec p q) as [->|Hne];
+        [ rewrite hget_hset_same in Hq by assumption; cbn [isW] in Hq; try discriminate; try reflexivity
+        | rewrite hget_hset_other in Hq by assumption ] ]
+  end.
+
+Ltac fin_same :=
+  match goal with
+  | |- pinv (mkPop _ ?hs) =>
+      constructor; cbnE; try assumption; try lia; try (intros; congruence); try (intros; lia);
+      try (let q := fresh "q" in let Hq := fresh "Hq" in intros q Hq;
+           first [ exfalso; eapply no_writer_holder; [|exact Hq]; lia | match goal with H : forall p : N, isW (hget _ p) = true -> _ = p |- _ => eapply H; exact Hq end ])
+  end.
+
+Lemma holder_facts : forall e hs, pinv (mkPop e hs) -> forall p,
+  (hget hs p = HWrite -> wr (lk e) = true /\ ap (lk e) = false) /\
+  (hget hs p = HAppend -> wr (lk e) = true /\ ap (lk e) = true) /\
+  (hget hs p = HRead -> 0 < rd (lk e)).
+Proof.
+  intros e hs [Ird Iwr Iap Iapw Iex Ius Iver] p. cbn [pe ph] in *.
+  assert (HW : isW (hget hs p) = true -> wr (lk e) = true).
+  { intros H. pose proof (cnt_pos_of_holder isW hs p eq_refl H). destruct (wr (lk e)); [reflexivity|lia]. }
+  split; [|split].
+  - intros H. split; [apply HW; rewrite H; reflexivity|].
+    destruct (ap (lk e)) eqn:Ea; [|reflexivity]. exfalso.
+    destruct (cnt_pos_exists isA hs) as [q Hq]; [lia|].
+    assert (p <> q) by (intros ->; rewrite H in Hq; discriminate).
+    assert (isW (hget hs q) = true) by (destruct (hget hs q); try discriminate; reflexivity).
+    assert (isW (hget hs p) = true) by (rewrite H; reflexivity).
+    pose proof (cnt_two isW hs p q eq_refl H0 H2 H1). destruct (wr (lk e)); lia.
+  - intros H. split; [apply HW; rewrite H; reflexivity|].
+    assert (isA (hget hs p) = true) by (rewrite H; reflexivity).
+    pose proof (cnt_pos_of_holder isA hs p eq_refl H0). destruct (ap (lk e)); [reflexivity|lia].
+  - intros H. assert (isR (hget hs p) = true) by (rewrite H; reflexivity).
+    pose proof (cnt_pos_of_holder isR hs p eq_refl H0). lia.
+Qed.
+
+Lemma pstep1_inv : forall s p o, pinv s -> pinv (fst (pstep1 s p o)).
+Proof.
+  intros [e hs] p o I. pose proof (holder_facts e hs I p) as [HFw [HFa HFr]].
+  destruct I as [Ird Iwr Iap Iapw Iex Ius Iver]. cbn [pe ph] in *.
+  unfold pstep1. cbn [pe ph].
+  destruct (N.leb (lenN hs) p) eqn:Hlen; [cbn [fst]; constructor; assumption|].
+  assert (Hp : p < lenN hs) by lia.
+  destruct e as [[r w a] u wt ha ev el]. cbnE.
+  destruct (hget hs p) eqn:Hh; destruct o; cbn [fst]; try (constructor; assumption);
+  try (specialize (HFr eq_refl));
+  destruct w, a, u, wt; cbnE;
+  try (destruct (HFw eq_refl) as [X Y]; (discriminate X || discriminate Y));
+  try (destruct (HFa eq_refl) as [X Y]; (discriminate X || discriminate Y));
+  lock_unf; lock_unf; cbnE; cbn [negb orb andb fst snd];
+  try (specialize (Iapw eq_refl); discriminate); try (specialize (Ius eq_refl); discriminate);
+  repeat match goal with
+       | |- context [if ?b then _ else _] => destruct b eqn:?
+       end; cbnE; cbn [negb orb andb fst snd].
+  all: try (constructor; cbnE; assumption).
+  all: try fin_set.
+  all: try (eapply Iver; eassumption).
+  all: try (apply Iver; rewrite Hh; reflexivity).
+  all: try (exfalso; eapply no_writer_holder; [|eassumption]; lia).
+  all: try fin_same.
+  all: try (exact Iapw).
+  all: try (specialize (Iex eq_refl eq_refl); lia).
+  all: try (exfalso; match goal with Hq : isW (hget ?hs ?q) = true, Hne : ?p <> ?q, Hh : hget ?hs ?p = _ |- _ =>
+             assert (Hpw : isW (hget hs p) = true) by (rewrite Hh; reflexivity);
+             pose proof (cnt_two isW hs p q eq_refl Hne Hpw Hq); lia end).
+Qed.
+
+Lemma prun_inv : forall sched s, pinv s -> pinv (fst (prun s sched)).
+Proof.
+  induction sched as [|[p o] r IH]; intros s I; cbn [prun fst]; [exact I|].
+  destruct (pstep1 s p o) as [s1 ob] eqn:E1. destruct (prun s1 r) as [s2 obs] eqn:E2. cbn [fst].
+  specialize (IH s1). rewrite E2 in IH. apply IH. pose proof (pstep1_inv s p o I) as H. rewrite E1 in H. exact H.
+Qed.
+
+
+Theorem pop_one_writer : forall n sched p q, let s := fst (prun (pinit n) sched) in
+  p <> q -> isW (hget (ph s) p) = true -> isW (hget (ph s) q) = true -> False.
+Proof.
+  intros n sched p q s Hne Hp Hq. pose proof (prun_inv sched (pinit n) (pinv_init n)) as I. fold s in I.
+  pose proof (cnt_two isW (ph s) p q eq_refl Hne Hp Hq). destruct I as [_ Iwr _ _ _ _ _].
+  destruct (wr (lk (pe s))); lia.
+Qed.
+
+Theorem pop_reader_only_with_appending_writer : forall n sched p q, let s := fst (prun (pinit n) sched) in
+  hget (ph s) p = HRead -> isW (hget (ph s) q) = true -> hget (ph s) q = HAppend.
+Proof.
+  intros n sched p q s Hp Hq. pose proof (prun_inv sched (pinit n) (pinv_init n)) as I. fold s in I.
+  destruct s as [e hs]. cbn [ph] in *.
+  pose proof (holder_facts e hs I p) as [_ [_ HFr]]. pose proof (holder_facts e hs I q) as [HFw _].
+  specialize (HFr Hp). destruct (hget hs q) eqn:Eq; try discriminate; [|reflexivity].
+  destruct (HFw eq_refl) as [Hw Ha]. destruct I as [_ _ _ _ Iex _ _]. cbn [pe] in Iex. specialize (Iex Hw Ha). lia.
+Qed.
+
+(* what a successful openForReading saw *)
+Definition obs_sound (s : pop) (ob : pobs) : Prop :=
+  match ob with
+  | ObsNone => True
+  | ObsOpenR p v len c =>
+      used (pe s) = true /\ wtbf (pe s) = false /\ v = ever (pe s) /\ len = elen (pe s) /\
+      (c = true -> forall q, isW (hget (ph s) q) = false) /\
+      (c = false -> hget (ph s) v = HAppend)
+  end.
+
+Lemma step_obs_sound : forall s p o, pinv s -> obs_sound s (snd (pstep1 s p o)).
+Proof.
+  intros [e hs] p o I. unfold pstep1. cbn [pe ph].
+  destruct (N.leb (lenN hs) p) eqn:Hlen; [exact Logic.I|].
+  destruct (hget hs p) eqn:Hh; destruct o; cbn [snd obs_sound]; try exact Logic.I;
+    try (match goal with |- context [let '(_, _) := ?x in _] => destruct x as [? []] end; exact Logic.I).
+  destruct (openForReading e) as [e' ok] eqn:Eo. destruct ok; [|exact Logic.I]. cbn [snd obs_sound pe ph].
+  destruct I as [Ird Iwr Iap Iapw Iex Ius Iver]. cbn [pe ph] in *.
+  destruct e as [[r w a] u wt ha ev el]. unfold openForReading, lockShared, e_complete in *. cbnE.
+  destruct (negb w || a) eqn:E1; cbn [negb] in Eo; [|discriminate].
+  destruct (negb u || wt) eqn:E2; [discriminate|].
+  destruct u, wt; try discriminate. repeat split.
+  - intros Hc q. destruct w; [discriminate|]. destruct (isW (hget hs q)) eqn:Eq; [|reflexivity].
+    exfalso. eapply no_writer_holder; [|exact Eq]. lia.
+  - intros Hc. destruct w; [|discriminate]. cbn in E1. subst a.
+    destruct (cnt_pos_exists isA hs) as [q Hq]; [lia|].
+    assert (isW (hget hs q) = true) by (destruct (hget hs q); try discriminate; reflexivity).
+    rewrite (Iver q H). destruct (hget hs q); try discriminate; reflexivity.
+Qed.
+
+Fixpoint all_obs_sound (s : pop) (sched : list (N * mop)) : Prop :=
+  match sched with
+  | [] => True
+  | (p, o) :: r => obs_sound s (snd (pstep1 s p o)) /\ all_obs_sound (fst (pstep1 s p o)) r
+  end.
+
+Theorem pop_every_open_sound : forall n sched, all_obs_sound (pinit n) sched.
+Proof.
+  intros n sched. generalize (pinv_init n). generalize (pinit n).
+  induction sched as [|[p o] r IH]; intros s I; cbn [all_obs_sound]; [exact Logic.I|].
+  split; [apply step_obs_sound; exact I| apply IH; apply pstep1_inv; exact I].
+Qed.
+
+(* purged entries are not opened *)
+Definition dead (e : ent) : bool := negb (used e) || wtbf e.
+Definition creates (o : mop) : bool := match o with MOpenW | MOpenOrCreate => true | _ => false end.
+
+Lemma dead_no_open : forall s p o, dead (pe s) = true -> creates o = false ->
+  snd (pstep1 s p o) = ObsNone /\ dead (pe (fst (pstep1 s p o))) = true.
+Proof.
+  intros [e hs] p o Hd Hc. unfold pstep1. cbn [pe ph].
+  destruct (N.leb (lenN hs) p); [split; [reflexivity|exact Hd]|].
+  destruct e as [[r w a] u wt ha ev el]. unfold dead in *. cbnE.
+  destruct (hget hs p); destruct o; try discriminate Hc; cbn [fst snd pe]; try (split; [reflexivity|exact Hd]);
+  lock_unf; cbnE; destruct w, a, u, wt; cbn [negb orb andb fst snd] in *; try discriminate Hd;
+  repeat match goal with |- context [if ?b then _ else _] => destruct b eqn:? end; cbnE; cbn [negb orb andb fst snd pe];
+  split; reflexivity.
+Qed.
+
+Lemma free_makes_dead : forall s p o, p < lenN (ph s) -> (o = MFree \/ o = MFreeByKey) ->
+  dead (pe (fst (pstep1 s p o))) = true.
+Proof.
+  intros [e hs] p o Hp Ho. unfold pstep1. cbn [pe ph] in *.
+  replace (N.leb (lenN hs) p) with false by lia.
+  destruct e as [[r w a] u wt ha ev el]. unfold dead.
+  destruct Ho as [-> | ->]; destruct (hget hs p); cbn [fst pe]; lock_unf; cbnE;
+  destruct w, u, wt; cbn [negb orb andb fst snd]; try reflexivity;
+  repeat match goal with |- context [if ?b then _ else _] => destruct b eqn:? end; cbnE; cbn [negb orb andb]; reflexivity.
+Qed.
+
+Theorem pop_purged_not_opened : forall s p o sched,
+  p < lenN (ph s) -> (o = MFree \/ o = MFreeByKey) ->
+  forallb (fun x => negb (creates (snd x))) sched = true ->
+  forall ob, In ob (snd (prun (fst (pstep1 s p o)) sched)) -> ob = ObsNone.
+Proof.
+  intros s p o sched Hp Ho Hs. pose proof (free_makes_dead s p o Hp Ho) as Hd.
+  generalize dependent (fst (pstep1 s p o)). clear Hp Ho.
+  induction sched as [|[q o'] r IH]; intros s1 Hd ob Hin; cbn [prun snd] in Hin; [contradiction|].
+  cbn [forallb snd] in Hs. apply andb_true_iff in Hs as [Hc Hr].
+  destruct (dead_no_open s1 q o' Hd) as [Hob Hd']; [destruct (creates o'); [discriminate|reflexivity]|].
+  destruct (pstep1 s1 q o') as [s2 ob1] eqn:E1. destruct (prun s2 r) as [s3 obs] eqn:E2. cbn [fst snd] in *.
+  destruct Hin as [<-|Hin]; [exact Hob|].
+  specialize (IH Hr s2 Hd' ob). rewrite E2 in IH. apply IH. exact Hin.
+Qed.
